@@ -161,11 +161,23 @@ def final_checks(ctx: Ctx, m: Monitor, bio):
         if c["fit"] is not None and "residuals" in c["fit"]:
             k = id(c["residue"])
             maxres[k] = max(maxres.get(k, 0.0), max(c["fit"]["residuals"]))
+    # every fit point stands for the template atom it is paired with: own atoms by name, the template's N+1 / C-1
+    # by the N of the next / the C of the previous residue of the chain
+    for c in m.created:
+        for t, where, an in c.get("pairing") or []:
+            if t is None:
+                continue
+            want = ("next", "N") if t == "N+1" else ("prev", "C") if t == "C-1" else ("own", t)
+            ctx.count("fit-point-pairing", "own" if want[0] == "own" else t)
+            if (where, an) != want:
+                out.append(({"kind": "fit-on-wrong-atom", "caller": c["caller"], "template": t if t in ("N+1", "C-1") else "own"}, f"{c['residue']} {c['name']} ({c['caller']}): the fit point for template atom {t} is {an} of the {where} residue, expected {want[1]} of the {want[0]} residue"))
+                break
     for res in bio.residues:
         ref = getattr(res, "reference", None)
         if ref is None:
             continue
         pos = position(res)
+        out_start = len(out)
         tolres = maxres.get(id(res), 0.0) + 1e-3
         # distortion already present among BONDED input heavy atoms of the residue (a fit may not borrow
         # slack from atoms that are not bonded, e.g. across a chain break)
@@ -231,6 +243,28 @@ def final_checks(ctx: Ctx, m: Monitor, bio):
                         if dev > 3.0:
                             out.append(({"kind": "tetrahedral-angle", "residue": res.name, "pos": pos, "atom": a.name}, f"{res} angle {a.name}-{p}-{w} is {dev:.1f} degrees off the template in a group of three hydrogens"))
                             break
+            if not isH and nbs:
+                # a rebuilt heavy atom: gross angle check at its parent against the template, the neighbours across
+                # the peptide bond included (template atoms N+1 / C-1 = the next residue's N / the previous residue's
+                # C, taken here from the chain, not from what the code fitted on). Neighbours that were themselves
+                # rebuilt are skipped; the allowance is the distortion of the input around the parent plus 20 degrees.
+                p = nbs[0]
+                pa = res.get_atom(p)
+                hv = [(w, res.get_atom(w).coords, ref.map[w].coords) for w in ref.map[p].bonds if w != a.name and res.has_atom(w) and not res.get_atom(w).added]
+                for pseudo_name, other in (("C-1", getattr(res, "peptide_c", None)), ("N+1", getattr(res, "peptide_n", None))):
+                    if other is not None and not getattr(other, "added", False) and pseudo_name in ref.map and pseudo_name in ref.map[p].bonds:
+                        hv.append((pseudo_name, other.coords, ref.map[pseudo_name].coords))
+                distort = 0.0
+                for i in range(len(hv)):
+                    for j in range(i + 1, len(hv)):
+                        distort = max(distort, abs(angle(hv[i][1], pa.coords, hv[j][1]) - angle(hv[i][2], ref.map[p].coords, hv[j][2])))
+                if not pa.added:
+                    for w, wc, wt in hv:
+                        dev = abs(angle(a.coords, pa.coords, wc) - angle(ref.map[a.name].coords, ref.map[p].coords, wt))
+                        ctx.count("rebuilt-heavy-angle-deviation", "<5" if dev < 5 else "<20" if dev < 20 else ">=20")
+                        if dev > distort + 20.0:
+                            out.append(({"kind": "angle", "residue": res.name, "pos": pos, "atom": a.name}, f"{res} angle {a.name}-{p}-{w} of the rebuilt atom {a.name} is {dev:.1f} degrees off the template (distortion of the input around {p}: {distort:.1f})"))
+                            break
             # persistence: distances to the fit atoms that are the parent or bonded to it are those of the creation
             if c is not None and c["fit"] is not None and c["coords"] == tuple(a.coords) or (c is not None and c["fit"] is not None and nbs):
                 parent = nbs[0] if nbs else None
@@ -257,6 +291,20 @@ def final_checks(ctx: Ctx, m: Monitor, bio):
                         sig = {"kind": "coincident", "cause": "debumped-onto-own-backbone"}
                     out.append((sig, f"{res} {a.name} is {dist(a.coords, b.coords):.3f} A from {b.name}"))
                     break
+        # known finding: a missing backbone N of a residue that is not the first of its chain is rebuilt by a fit
+        # on CA, C-1 (the previous residue's C) and C, three atoms on BOTH sides of the rotatable N-CA bond. The
+        # template's backbone torsion differs from the structure's, the fit cannot be exact, and N (and then H / HA,
+        # which are fitted on N) comes out with wrong bond lengths and angles. Identified by: N rebuilt by
+        # repair_heavy in a residue with a previous residue, and the atom at fault is N or bonded to N or CA.
+        n_atom = res.get_atom("N") if res.has_atom("N") else None
+        if n_atom is not None and n_atom.added and getattr(res, "peptide_c", None) is not None and "N" in ref.map and "CA" in ref.map:
+            c_n = last.get(id(n_atom))
+            if c_n is not None and c_n.get("caller") == "repair_heavy":
+                near_n = {"N"} | set(ref.map["N"].bonds) | set(ref.map["CA"].bonds)
+                for k in range(out_start, len(out)):
+                    sg, msg = out[k]
+                    if sg.get("atom") in near_n and sg.get("kind") in ("bond", "angle", "tetrahedral-angle"):
+                        out[k] = ({"kind": "rebuilt-backbone-N", "cause": "fit-spans-the-rotatable-N-CA-bond"}, msg)
     return out
 
 
